@@ -37,7 +37,7 @@ prop("C04", [H("K7_footer"), H("H04_persist", quick={"wall": "140s", "shards": 1
 prop("C05", [H("H05_merge", common={"param": "maxDocs=1,tieReopen=1,maxOcc=1"}, quick={"wall": "140s", "shards": 12}, thorough={"wall": "1500s", "shards": 16, "param": "maxDocs=2,tieReopen=0,maxOcc=1"}),
              # multi-valued stored fields (up to 3 occurrences with array positions), every field present and stored
              H("H05_merge", common={"param": "maxDocs=1,tieReopen=1,maxOcc=3,storeAll=1,always=1,fixAP=1,symTyp=0"}, quick={"wall": "140s", "shards": 4}, thorough={"wall": "1500s", "shards": 16, "param": "maxDocs=2,tieReopen=1,maxOcc=3,storeAll=1,always=1,fixAP=1,symTyp=0"})])
-prop("C06", KERNELS_CODEC[2:] + [H("H06_merge", quick={"wall": "140s", "shards": 16, "param": "maxDocs=1,tieReopen=1,lite=1"}, thorough={"wall": "1500s", "shards": 16, "param": "maxDocs=2,tieReopen=0"})])
+prop("C06", KERNELS_CODEC[2:] + [H("H06_locids"), H("H06_merge", quick={"wall": "140s", "shards": 16, "param": "maxDocs=1,tieReopen=1,lite=1"}, thorough={"wall": "1500s", "shards": 16, "param": "maxDocs=2,tieReopen=0"})])
 prop("C07", [
     H("K2_uvarint_rt"), H("K2_uvarint_agree"),
     # everything crossed on small lists
